@@ -42,6 +42,37 @@ Section Eval.
         map (fun p2 : binds * val => (fst p2, negb (apply_op W op (snd p1) (snd p2)))) (ev_opnd r (fst p1)))
         (ev_opnd l b).
 
+  (* Exists._evaluate__ (since c61005c): false results are skipped; a true result is yielded iff the bindings of the OTHER
+     variables (those of the quantified expression and of the condition, except the quantified variable itself) were not
+     seen before in this call *)
+  Definition oval_eqb (a b : option val) : bool :=
+    match a, b with Some v, Some w => val_eqb v w | None, None => true | _, _ => false end.
+  Fixpoint key_eqb (k1 k2 : list (option val)) : bool :=
+    match k1, k2 with
+    | [], [] => true
+    | a :: k1', b :: k2' => oval_eqb a b && key_eqb k1' k2'
+    | _, _ => false
+    end.
+
+  Fixpoint exists_scan (others : list var) (seen : list (list (option val))) (rs : list res) : list res :=
+    match rs with
+    | [] => []
+    | (b1, f) :: rs' =>
+        if f then exists_scan others seen rs'
+        else let key := map (lookup b1) others in
+             if existsb (key_eqb key) seen then exists_scan others seen rs'
+             else (b1, false) :: exists_scan others (key :: seen) rs'
+    end.
+
+  Definition exists_others (e : opnd) (c : cond) : list var :=
+    match e with
+    | OVar y => remove_var y (cond_vars c)
+    | _ => opnd_vars e ++ cond_vars c
+    end.
+
+  Definition restrict (xs : list var) (b : binds) : binds := filter (fun p : var * val => nmem (fst p) xs) b.
+  Definition first_true (rs : list res) : bool := match rs with [] => false | (_, f) :: _ => negb f end.
+
   Fixpoint eval (c : cond) (b : binds) : list res :=
     match c with
     | CCmp op l r => ev_cmp op l r b
@@ -53,6 +84,20 @@ Section Eval.
         flat_map (fun p : res => if snd p then eval r (fst p) else [(fst p, false)]) (eval l b)
         ++ eval r b
     | CNot c => map (fun p : res => (fst p, negb (snd p))) (eval c b)
+    | CExists e c => exists_scan (exists_others e c) [] (eval c b)
+    | CForAll y c =>
+        (* ForAll._evaluate__: candidate bindings of the other variables from the first value of y, narrowed by every
+           further value (first result of the condition decides); never yields a false result; vacuous when y has no
+           value (since 0409349) *)
+        let others := remove_var y (cond_vars c) in
+        match (match lookup b y with Some _ => [b] | None => map (fun v => (y, v) :: b) (D y) end) with
+        | [] => [(b, false)]
+        | bv0 :: bvs =>
+            let s0 := map (fun p : res => restrict others (fst p)) (filter (fun p : res => negb (snd p)) (eval c bv0)) in
+            let s := fold_left (fun (ss : list binds) (bv : binds) =>
+                                  filter (fun s1 => first_true (eval c (bv ++ s1))) ss) bvs s0 in
+            map (fun s1 => (s1 ++ b, false)) s
+        end
     end.
 
   (* QueryObjectDescriptor: true results of the child; each selected expression evaluated independently on a copy of the
